@@ -5,7 +5,8 @@ from .. import corpus, totality
 from ..gen import soup
 
 ID = "C01"
-RULE = ("workloads: golden corpus verbatim x {scss,sass,css}; near-miss mutations of corpus items; token soup; "
+RULE = ("workloads: golden corpus verbatim x {scss,sass,css}; near-miss mutations of corpus items; token soup; indentation soup "
+        "for the indented syntax (dictionary lines at increasing/decreasing/inconsistent indentation); "
         "ill-typed calls of every builtin (names read from the tree); deep shapes; invalid/unreadable bytes for "
         "entry and imported files; hex escapes of every boundary code point (NUL, surrogate range edges, U+10FFFF, beyond, "
         "overlong) in every lexical context that decodes escapes; option flags sampled. A case is non-trivial when its input is non-empty and "
@@ -152,6 +153,9 @@ def run(sh):
             elif k < 75:
                 text = soup.builtin_call(rng)
                 stratum = "builtin-call"
+            elif k < 82:
+                text = soup.sass_lines(rng)
+                stratum = "sass-lines"
             elif k < 88:
                 text = soup.soup(rng)
                 stratum = "soup"
@@ -169,7 +173,7 @@ def run(sh):
                 s["_stratum"] = "imported-mutation"
                 specs.append(s)
                 continue
-            s = {"text": text, "syntax": rng.choice(SYNTAXES) if stratum != "builtin-call" else "scss",
+            s = {"text": text, "syntax": "sass" if stratum == "sass-lines" else (rng.choice(SYNTAXES) if stratum != "builtin-call" else "scss"),
                  "budgets": {"steps": 200000}}
             s.update(_flags(rng))
             s["_stratum"] = stratum
